@@ -227,7 +227,13 @@ fn run_sim(seed: u64, idx: u64) -> SimOut {
                     let start = t0.elapsed().as_millis();
                     let msg = Req { id: req.id, delay_ms: req.delay_ms, reply_len: req.reply_len, self_fault: req.self_fault, client: ci as u8 };
                     // a client without a timeout may legitimately wait forever on a dead link: the harness stops waiting after 60 s
-                    let res = tokio::time::timeout(Duration::from_secs(60), client.send(&msg)).await;
+                    // half of the requests go through the by-value API (send_owned), half through send(&msg)
+                    let by_value = req.id % 2 == 1;
+                    let res = if by_value {
+                        tokio::time::timeout(Duration::from_secs(60), client.send_owned(msg)).await
+                    } else {
+                        tokio::time::timeout(Duration::from_secs(60), client.send(&msg)).await
+                    };
                     let end = t0.elapsed().as_millis();
                     spans.lock().unwrap().push((start, end));
                     let mut o = out.lock().unwrap();
